@@ -10,6 +10,8 @@ A *program* is a list of "nop" | ("raise", how) | ("block", tree, mid, program) 
 """
 from __future__ import annotations
 
+import gc
+
 import torch
 from torch import nn
 
@@ -207,7 +209,10 @@ def gen_prog(rng, graph, world, depth=0, max_depth=3):
         elif r < 0.85 and depth < max_depth:
             m = rng.randrange(0, len(graph["mods"]))
             tree = gen_tree(rng, graph, world, m)
-            out.append(("block", tree, m, gen_prog(rng, graph, world, depth + 1, max_depth)))
+            # temp: the parameter tensordict is an unreferenced temporary / deleted inside the body, so the weak
+            # reference held by the swap tensordict is dead when __exit__ runs
+            temp = rng.choice([None, None, None, "inline", "del_in_body"])
+            out.append(("block", tree, m, gen_prog(rng, graph, world, depth + 1, max_depth), temp))
         elif depth < max_depth:
             out.append(("try", gen_prog(rng, graph, world, depth + 1, max_depth)))
         else:
@@ -248,7 +253,8 @@ def prog_sx(prog, world):
             return "raise"
         if st[0] == "block":
             body = " ".join(one(s) for s in st[3])
-            return f"(block {tree_sx(st[1], world)} {st[2]}{' ' if body else ''}{body})"
+            head = "blockt" if len(st) > 4 and st[4] else "block"
+            return f"({head} {tree_sx(st[1], world)} {st[2]}{' ' if body else ''}{body})"
         body = " ".join(one(s) for s in st[1])
         return f"(try{' ' if body else ''}{body})"
     return "(" + " ".join(one(s) for s in prog) + ")"
@@ -366,19 +372,30 @@ def run_prog(prog, mods, tds, swaps, x):
                 h.remove()
             raise Boom()  # (the hook did not fire: target not reached) still raise
         elif st[0] == "block":
-            td = tds.pop(0)
-            s = td.to_module(mods[st[2]])
+            temp = st[4] if len(st) > 4 else None
+            holder = [tds.pop(0)]
+            s = holder[0].to_module(mods[st[2]])
             swaps.append(s)
+            if temp == "inline":
+                # as in `with make_params().to_module(module):` — nothing else references the tensordict
+                holder.clear()
+                if s._last_op[1][2]() is not None:
+                    gc.collect()
             with s:
+                if temp == "del_in_body":
+                    holder.clear()
+                    if s._last_op[1][2]() is not None:
+                        gc.collect()
                 run_prog(st[3], mods, tds, swaps, x)
+            if temp and s._last_op is not None and s._last_op[1][2]() is not None:
+                raise RuntimeError("harness: the parameter tensordict of a `temp` block is still alive")
         else:
-            n_before = count_blocks(st[1])
-            keep = tds[n_before:]
+            n_after = len(tds) - count_blocks(st[1])     # (lengths only: no extra references to the tensordicts)
             try:
                 run_prog(st[1], mods, tds, swaps, x)
             except Exception:  # noqa: BLE001   (`try: … except Exception: pass`)
                 # blocks of the skipped statements are never executed: drop their prebuilt tensordicts
-                del tds[:len(tds) - len(keep)]
+                del tds[:len(tds) - n_after]
 
 
 def count_blocks(prog):
